@@ -33,6 +33,8 @@ type Case struct {
 	Nbits  int    `json:"nbits"`
 	Dpat   int    `json:"dpat"`
 	Data   []int  `json:"data,omitempty"` // exact input (re-run of an observed call); overrides dpat
+	Grp    int    `json:"grp"`            // > 0: a call sequence under identical parameters; random key / COUNT drawn once per group
+	Seq    int    `json:"seq"`
 }
 
 // Ev is one observed call (C06 / C07 schema; every event carries every key).
@@ -50,6 +52,33 @@ type Ev struct {
 	Panic  bool   `json:"panic"`
 	Pfn    string `json:"pfn"`
 	Plib   bool   `json:"plib"`
+	// A returned slice is a value the caller owns.  After an event is logged the harness inverts every octet of the
+	// returned slice in place and keeps it; after the NEXT call it re-reads it: Prev = what the previous call returned
+	// (as logged), Held = what that slice holds now (first heldMax octets of each).
+	Prev []int `json:"prev"`
+	Held []int `json:"held"`
+}
+
+const heldMax = 256
+
+// runner carries what one driver process remembers between calls.
+type runner struct {
+	rng      *rand.Rand
+	grpKey   map[int][]int
+	grpCnt   map[int][]int
+	prevLog  []byte        // the previous call's result as logged
+	prevRead func() []byte // re-reads the slice the previous call returned
+}
+
+func newRunner(rng *rand.Rand) *runner {
+	return &runner{rng: rng, grpKey: map[int][]int{}, grpCnt: map[int][]int{}}
+}
+
+func clip(b []byte) []byte {
+	if len(b) > heldMax {
+		return b[:heldMax]
+	}
+	return b
 }
 
 func u32(b []int) uint32 {
@@ -91,18 +120,29 @@ func pattern(rng *rand.Rand, n, dpat int) []byte {
 }
 
 // runCase executes one call and returns the observation.
-func runCase(rng *rand.Rand, c Case) Ev {
+func (r *runner) runCase(c Case) Ev {
+	rng := r.rng
 	key := c.Key
 	if len(key) == 0 {
-		k := make([]byte, 16)
-		rng.Read(k)
-		key = ev.Ints(k)
+		if k, ok := r.grpKey[c.Grp]; ok && c.Grp > 0 {
+			key = k
+		} else {
+			k := make([]byte, 16)
+			rng.Read(k)
+			key = ev.Ints(k)
+			r.grpKey[c.Grp] = key
+		}
 	}
 	cnt := c.Cnt
 	if len(cnt) == 0 {
-		k := make([]byte, 4)
-		rng.Read(k)
-		cnt = ev.Ints(k)
+		if k, ok := r.grpCnt[c.Grp]; ok && c.Grp > 0 {
+			cnt = k
+		} else {
+			k := make([]byte, 4)
+			rng.Read(k)
+			cnt = ev.Ints(k)
+			r.grpCnt[c.Grp] = cnt
+		}
 	}
 	var k16 [16]byte
 	copy(k16[:], ev.Bytes(key))
@@ -123,9 +163,10 @@ func runCase(rng *rand.Rand, c Case) Ev {
 	if c.Data != nil {
 		data = ev.Bytes(c.Data)
 	}
-	e := Ev{Op: c.Op, Alg: c.Alg, Key: key, Cnt: cnt, Bearer: c.Bearer, Dir: c.Dir, Data: ev.Ints(data), Nbits: c.Nbits, Out: []int{}}
+	e := Ev{Op: c.Op, Alg: c.Alg, Key: key, Cnt: cnt, Bearer: c.Bearer, Dir: c.Dir, Data: ev.Ints(data), Nbits: c.Nbits, Out: []int{}, Prev: []int{}, Held: []int{}}
 	in := append([]byte{}, data...)
 	var out []byte
+	var words []uint32 // the raw generators return words
 	var err error
 	pi := ev.Guard(func() {
 		switch c.Op {
@@ -155,13 +196,20 @@ func runCase(rng *rand.Rand, c Case) Ev {
 		case "NASMacCalculate":
 			out, err = security.NASMacCalculate(uint8(c.Alg), k16, count, uint8(c.Bearer), uint8(c.Dir), in)
 		case "GetKeyStream":
-			out = bytesOfWords(snow3g.GetKeyStream(wordsOf(k16[:]), wordsOf(data), c.Nbits/32))
+			words = snow3g.GetKeyStream(wordsOf(k16[:]), wordsOf(data), c.Nbits/32)
+			out = bytesOfWords(words)
 		case "Zuc":
-			out = bytesOfWords(zuc.Zuc(k16[:], in, uint32(c.Nbits/32)))
+			words = zuc.Zuc(k16[:], in, uint32(c.Nbits/32))
+			out = bytesOfWords(words)
 		default:
 			ev.Fatal("unknown op %q", c.Op)
 		}
 	})
+	// what does the slice returned by the previous call hold now?
+	if r.prevRead != nil {
+		e.Prev, e.Held = ev.Ints(clip(r.prevLog)), ev.Ints(clip(r.prevRead()))
+	}
+	r.prevLog, r.prevRead = nil, nil
 	if pi != nil {
 		e.Panic, e.Pfn, e.Plib = true, pi.Fn, pi.Lib
 		return e
@@ -169,6 +217,22 @@ func runCase(rng *rand.Rand, c Case) Ev {
 	e.Err = err != nil
 	if out != nil {
 		e.Out = ev.Ints(out)
+	}
+	// the caller owns the result: write into it (invert every octet), keep it for the next call
+	if words != nil {
+		r.prevLog = append([]byte{}, out...)
+		for i := range words {
+			words[i] = ^words[i]
+		}
+		w := words
+		r.prevRead = func() []byte { return bytesOfWords(w) }
+	} else if out != nil {
+		r.prevLog = append([]byte{}, out...)
+		for i := range out {
+			out[i] = ^out[i]
+		}
+		o := out
+		r.prevRead = func() []byte { return o }
 	}
 	return e
 }
@@ -182,10 +246,10 @@ func replay(in, out string) {
 	if err := json.Unmarshal(b, &cs); err != nil {
 		ev.Fatal("%v", err)
 	}
-	rng := ev.Rng()
+	r := newRunner(ev.Rng())
 	w := ev.Create(out)
 	for _, c := range cs {
-		w.Emit(runCase(rng, c))
+		w.Emit(r.runCase(c))
 	}
 	w.Close()
 }
@@ -208,6 +272,7 @@ func randBits(rng *rand.Rand) int {
 
 func record(kind, out string) {
 	rng := ev.Rng()
+	r := newRunner(rng)
 	w := ev.Create(out)
 	n := 1200
 	if ev.Thorough() {
@@ -219,28 +284,58 @@ func record(kind, out string) {
 	} else {
 		ops = []string{"NIA", "NASMacCalculate"}
 	}
+	var last *Ev
 	for i := 0; i < n; i++ {
 		c := Case{Op: ops[rng.Intn(len(ops))], Alg: 1 + rng.Intn(3), Bearer: rng.Intn(32), Dir: rng.Intn(2), Nbits: randBits(rng), Dpat: 2}
-		switch c.Op {
-		case "NASEncrypt", "NASMacCalculate":
-			c.Nbits = 8 * (c.Nbits / 8)
-		case "GetKeyStream", "Zuc":
-			c.Alg = 0
-			c.Nbits = 32 * (c.Nbits / 64)
-		case "NEA", "NIA":
-			if c.Alg == 2 {
-				c.Nbits = 8 * (c.Nbits / 8)
-			}
-		}
 		switch rng.Intn(8) {
 		case 0:
 			c.Cnt = []int{255, 255, 255, 255}
 		case 1:
 			c.Cnt = []int{0, 0, 0, 0}
 		}
-		w.Emit(runCase(rng, c))
+		if last != nil && rng.Intn(4) == 0 {
+			// the same parameters as the previous call (a new length close to the old one, new data; for the raw
+			// generators also the same IV): results must not depend on the call before
+			c.Op, c.Alg, c.Key, c.Cnt, c.Bearer, c.Dir = caseOp(last.Op), last.Alg, last.Key, last.Cnt, last.Bearer, last.Dir
+			c.Nbits = last.Nbits + rng.Intn(80) - 40
+			if c.Nbits < 0 {
+				c.Nbits = rng.Intn(40)
+			}
+		}
+		switch c.Op {
+		case "NASEncrypt", "NASMacCalculate":
+			c.Nbits = 8 * (c.Nbits / 8)
+		case "GetKeyStream", "Zuc":
+			c.Alg = 0
+			c.Nbits = 32 * (c.Nbits / 64)
+			if last != nil && caseOp(last.Op) == c.Op && c.Key != nil && len(last.Data) == 16 {
+				c.Data = last.Data
+				c.Nbits = 32 * (last.Nbits/32 + rng.Intn(5) - 2)
+				if c.Nbits < 0 {
+					c.Nbits = 32
+				}
+			}
+		case "NEA", "NIA":
+			if c.Alg == 2 {
+				c.Nbits = 8 * (c.Nbits / 8)
+			}
+		}
+		e := r.runCase(c)
+		last = &e
+		w.Emit(e)
 	}
 	w.Close()
+}
+
+// caseOp maps a logged operation name back to the case vocabulary.
+func caseOp(op string) string {
+	switch op {
+	case "NEA1", "NEA2", "NEA3":
+		return "NEA"
+	case "NIA1", "NIA2", "NIA3":
+		return "NIA"
+	}
+	return op
 }
 
 func main() {
